@@ -24,11 +24,12 @@ n_all = len(metas)
 n_obsolete = sum(1 for _, d in metas if d.get('obsolete'))
 n_missed_first = sum(1 for _, d in metas if 'MISSED' in (d.get('verifier_note') or ''))
 n_own = sum(1 for sid, d in metas if d.get('property', sid[:3]) in d.get('caught_by_quick_checks', []))
+n_none = sum(1 for sid, d in metas if not d.get('caught_by_quick_checks') and not d.get('obsolete'))
 out[-2:-2] = ['%d changes in %d rounds; %d were at first missed by the check of their own property (each such miss led to a '
               'generator or oracle extension recorded in the note and in DESIGN.md 10.1); with the current machinery %d are caught by '
-              'the check of their own property, %d only by a neighbouring property, %d became obsolete through a later fix.' % (
+              'the check of their own property, %d only by a neighbouring property, %d by none at quick tier, %d became obsolete through a later fix.' % (
                   n_all, max(int(d.get('round', 1)) for _, d in metas), n_missed_first, n_own,
-                  n_all - n_own - n_obsolete, n_obsolete), '']
+                  n_all - n_own - n_obsolete - n_none, n_none, n_obsolete), '']
 for sid, d in metas:
   out.append('| seeded/%s | %s | %s | %s | %s |' % (sid, d.get('property', sid[:3]), ', '.join(d.get('caught_by_quick_checks', [])) or ('obsolete' if d.get('obsolete') else 'MISSED'), sweep.get(sid, ''),
                                                (d.get('verifier_note') or d.get('summary', '')).replace('|', '/').replace('\n', ' ')))
